@@ -179,7 +179,7 @@ pub fn plan(prop: &str, tier: Tier) -> Option<Plan> {
         ),
         "C15" => (
             "exploration",
-            "proptest-generated (API, length 0..24, 32-bit mask of slots written, 0..2 extra clones, fate) over Arc::new_uninit, UniqueArc::new_uninit, Arc::new_uninit_slice, UniqueArc::new_uninit_slice, UniqueArc::from_header_and_uninit_slice with identity-tracked header and element payloads (4 alignment combinations). Fates: drop before assume_init (no element destructor may run: written Toks stay alive and undropped in the registry, unwritten slots are never touched - their 0xA5 fill would show as a bad magic -, the header is destroyed exactly once, the block is freed with its layout), assume_init / assume_init_slice / assume_init_slice_with_header (same block, same count, same contents; afterwards every element destroyed exactly once with the allocation, also when released through another kind), the deprecated Arc::write / as_mut_slice (panic iff shared; every other handle's view and the count unchanged). Non-trivial: a proper non-empty subset of slots written before a drop, or assume_init followed by release through a different kind, or a deprecated write at >=2 owners.".into(),
+            "proptest-generated (API, length 0..24, 32-bit mask of slots written, 0..2 extra clones, fate) over Arc::new_uninit, UniqueArc::new_uninit, Arc::new_uninit_slice, UniqueArc::new_uninit_slice, UniqueArc::from_header_and_uninit_slice with identity-tracked header and element payloads (4 alignment combinations). Fates: drop before assume_init (no element destructor may run: written Toks stay alive and undropped in the registry, unwritten slots are never touched - their fresh-memory fill pattern would show as a bad magic -, the header is destroyed exactly once, the block is freed with its layout), assume_init / assume_init_slice / assume_init_slice_with_header (same block, same count, same contents; afterwards every element destroyed exactly once with the allocation, also when released through another kind), the deprecated Arc::write / as_mut_slice (panic iff shared; every other handle's view and the count unchanged). Non-trivial: a proper non-empty subset of slots written before a drop, or assume_init followed by release through a different kind, or a deprecated write at >=2 owners.".into(),
             vec!["assume_init is only called with every slot written (its safety contract)".into()],
             {
                 let mut v = vec![];
